@@ -159,7 +159,8 @@ def main(tier):
                           "%s: heap keeps growing with bounded live data: total sizes per round %s" % (prog, sizes))
         # ... and stays within a constant multiple of the live data (churn2 keeps < 300 KB alive)
         initial = {"300k": 300 * 1024, "16M": 16 * 1024 * 1024}.get(heap, 2 * 1024 * 1024)
-        if prog == "churn2.scm" and sizes[-1] > max(24 * 1024 * 1024, 2 * initial):
+        # (measured on the unchanged tree: 14.7 MB from the default heap, 9.5 MB from 300k, 50 MB = 16 + 32 from a 16 MB heap)
+        if prog == "churn2.scm" and sizes[-1] > max(24 * 1024 * 1024, 4 * initial):
             chk.violation({"op": "churn-size", "heap": heap, "program": prog, "sizes": sizes},
                           "%s: heap reached %d bytes for < 300 KB of live data (first round %d)" % (prog, sizes[-1], sizes[0]))
         if hc and hc.group(1).strip() != "#t":
